@@ -11,14 +11,21 @@ def jobgen(ctx):
     builds = ['REL', 'SEC', 'DBG']
     cov = ctx['cov']; cov['bases'] = []; cov['enumerated_calls'] = 0
     n = 0
-    for rep in range(reps):
-        for vi, v in enumerate(variants):
+    # bases: the c07_base variants, and thread-start histories (c07_threadstart with its own random faults removed), in which the
+    # first allocator call of a fresh thread is a free of a foreign / abandoned block, an allocation, a realloc, mi_heap_new or a collect
+    bases = [('c07_base', rep, vi, v) for rep in range(reps) for vi, v in enumerate(variants)]
+    bases += [('c07_threadstart', 0, 50 + i, -1) for i in range(2 if tier == 'quick' else 8)]
+    for (bfam, rep, vi, v) in bases:
             for b in builds:
-                sd = (ctx['seed_of'](ctx['seed'], 'c07_base', rep * 100 + vi) // 20) * 20 + v + (10 if (vi % 2) else 0)
-                plan = ctx['dump_plan'](ctx['bdir'], b, 'c07_base', sd)
+                if bfam == 'c07_base': sd = (ctx['seed_of'](ctx['seed'], 'c07_base', rep * 100 + vi) // 20) * 20 + v + (10 if (vi % 2) else 0)
+                else: sd = ctx['seed_of'](ctx['seed'], bfam, vi)
+                plan = ctx['dump_plan'](ctx['bdir'], b, bfam, sd)
+                if bfam != 'c07_base':
+                    for pr in plan['progs']:
+                        for o in pr['ops']: o.pop('f', None)
                 bp = os.path.join(ctx['tmp'], 'base-%s-%d.json' % (b, sd)); json.dump({'plan': plan}, open(bp, 'w'))
                 code, res = ctx['simrun'](ctx['bdir'], b, ['--replay', bp, '--trace'])
-                yield (b, bp, 'c07_base', sd)       # the fault-free run itself is part of the batch
+                yield (b, bp, bfam, sd)       # the fault-free run itself is part of the batch
                 if res.get('status') != 'ok': continue
                 seen = {}; calls = []
                 for c in res.get('os_log', []):
